@@ -172,7 +172,7 @@ func Run(r *core.Run) {
 	c := &ctx{r: r}
 	maxLen := core.Pick(r, 2, 3)
 	r.Rule = fmt.Sprintf("strings and member names of length <= %d over %d code-point classes x every spelling combination; objects of 2-3 members over the name alphabet in every input order; "+
-		"boundary doubles (10^e +-20ulp, 2^e +-3ulp, k*10^j, thorough: 12-bit mantissa prefixes x all exponents) x 6-9 spellings; trees depth<=3 width<=2; 4 whitespace bytes at every token boundary (<=2 insertions); "+
+		"boundary doubles (10^e +-20ulp, 2^e +-3ulp, k*10^j, thorough: 12-bit mantissa prefixes x all exponents) x 6-9 spellings, and for every 8th of them (thorough: all) the exact midpoint to the next double and the midpoint +- 10^-190 as 200-digit tokens; trees depth<=3 width<=2; 4 whitespace bytes at every token boundary (<=2 insertions); "+
 		"Go-value path; distinct = distinct JSON values (groups), non-trivial = every group (each differs from its canonical form in at least one spelling or order)", maxLen, len(alphabet))
 	r.Assumptions = []string{"reference JCS built on encoding/json decoding and strconv shortest round-trip digits", "inputs restricted to I-JSON (no lone surrogates, duplicate names, non-finite numbers)"}
 	var groups int64
@@ -445,12 +445,41 @@ func Run(r *core.Run) {
 		}
 		c.group("number", ins)
 	}
+	// long decimal tokens next to a rounding boundary: the exact midpoint between a double and its upper neighbour (a tie, about
+	// 50-190 significant digits), and the midpoint plus / minus 10^-190 - tokens whose value is decided by a digit far behind the 17th
+	halfway := func(f float64) {
+		g := math.Nextafter(f, math.Inf(1))
+		if a := math.Abs(f); f == 0 || g == 0 || math.IsInf(g, 0) || a < 1e-25 || a > 1e25 {
+			return
+		}
+		bf := func(x float64) *big.Float { return new(big.Float).SetPrec(4000).SetFloat64(x) }
+		mid := new(big.Float).SetPrec(4000).Add(bf(f), bf(g))
+		mid.Quo(mid, bf(2))
+		tiny := new(big.Float).SetPrec(4000).Quo(bf(1), new(big.Float).SetPrec(4000).SetInt(new(big.Int).Exp(big.NewInt(10), big.NewInt(190), nil)))
+		sh := func(x float64) string { return strconv.FormatFloat(x, 'g', -1, 64) }
+		tie := strings.TrimRight(mid.Text('f', 200), "0")
+		if strings.HasSuffix(tie, ".") {
+			tie += "0"
+		}
+		if t, err := strconv.ParseFloat(tie, 64); err == nil {
+			c.group("number", [][]byte{[]byte("[" + sh(t) + "]"), []byte("[" + tie + "]")})
+		}
+		up := new(big.Float).SetPrec(4000).Add(mid, tiny).Text('f', 195)
+		down := new(big.Float).SetPrec(4000).Sub(mid, tiny).Text('f', 195)
+		c.group("number", [][]byte{[]byte("[" + sh(g) + "]"), []byte("[" + up + "]")})
+		c.group("number", [][]byte{[]byte("[" + sh(f) + "]"), []byte("[" + down + "]")})
+	}
 	core.Parallel(nBase, func(i int) {
 		numGroup(vals[i])
 		if vals[i] != 0 {
 			numGroup(-vals[i])
 		}
+		if r.Thorough() || i%8 == 0 {
+			halfway(vals[i])
+			halfway(-vals[i])
+		}
 	})
+	r.Class("long-tokens-at-rounding-boundaries")
 	atomic.AddInt64(&groups, int64(2*nBase))
 	r.Class("numbers")
 	r.Sample(map[string]any{"kind": "number spellings of 1e21 - 1ulp", "inputs": []string{"[999999999999999900000]", "[9.99999999999999868928e+20]", "[9.999999999999999E20]"}})
